@@ -106,6 +106,10 @@ DIRECTED_DOCS = [
     '>>> x = 1\n>>> if x < 0:\n>>>     print("neg")\n>>> # otherwise\n>>> else:\n>>>     print("pos")\n\nprose between\n\n'
     '>>> x + 1\n>>> # the value is shown\npos\n2\n',
     '>>> def deco(f): return f\n>>> @deco\n>>> # about the function\n>>> def f(): return 5\n\nprose between\n\n>>> f()\n>>> # echoed\n5\n',
+    # wants whose lines are ALL indented relative to the prompt (right-aligned numbers, an indented table): the blanks
+    # are part of the want
+    '>>> print("%5d" % 42)\n   42\n>>> x = 1\n>>> print("  1 one", " 10 ten", sep=chr(10))\n  1 one\n 10 ten\n',
+    '>>> x = 3\n>>> print("    deep")\n    deep\n\nprose between\n\n>>> print("  a", "    b", sep=chr(10))\n  a\n    b\n>>> y = 2\n',
 ]
 
 
